@@ -995,8 +995,14 @@ func (p *Parser) newLit(r rune) {
 		// sentinel runes not present in the input as-is
 		p.litBs = p.litBuf[:0]
 	default:
-		w := utf8.RuneLen(r)
-		p.litBs = append(p.litBuf[:0], p.bs[p.bsp-uint(w):p.bsp]...)
+		w := uint(utf8.RuneLen(r))
+		if w > p.bsp {
+			// The buffer was refilled since we read r, such as when peeking
+			// for the rest of a stop word, so its bytes are gone; encode it again.
+			p.litBs = utf8.AppendRune(p.litBuf[:0], r)
+			break
+		}
+		p.litBs = append(p.litBuf[:0], p.bs[p.bsp-w:p.bsp]...)
 	}
 }
 
